@@ -1,0 +1,19 @@
+//go:build verif
+
+package mutating
+
+import (
+	kruiseappsv1alpha1 "github.com/openkruise/kruise-api/apps/v1alpha1"
+	"k8s.io/apimachinery/pkg/apis/meta/v1/unstructured"
+)
+
+// Exported views of handleStatefulSetLikeWorkload / handleDaemonSet for the verification
+// harness, suite ctlsts (compiled only with -tags verif; add-only, untracked).
+
+func (h *UnifiedWorkloadHandler) VerifCtlStsHandleStatefulSetLike(newObj, oldObj *unstructured.Unstructured) (bool, error) {
+	return h.handleStatefulSetLikeWorkload(newObj, oldObj)
+}
+
+func (h *WorkloadHandler) VerifCtlStsHandleDaemonSet(newObj, oldObj *kruiseappsv1alpha1.DaemonSet) (bool, error) {
+	return h.handleDaemonSet(newObj, oldObj)
+}
